@@ -56,6 +56,10 @@ pub fn gen_stream(rng: &mut Rng, n: usize, thorough: bool) -> Vec<Case> {
         let sl = rng.range(5, 60) as usize;
         let sched = legal_sched(rng, sl);
         out.push((format!("stream any {} {} {}", sched, opss, h), "clean=1|legal".into()));
+        // the same under a reader handed over with its cursor somewhere else (inside the ident, inside the file, at
+        // and past the end): open_stream positions every read itself
+        let p0 = *rng.pick(&[1u64, 4, 5, 16, 17, fc.built.bytes.len() as u64 / 2, fc.built.bytes.len() as u64, fc.built.bytes.len() as u64 + 7]);
+        out.push((format!("stream {} p{},{} {} {}", spec, p0, sched, opss, h), "clean=1|legal|handed-over".into()));
         // corrupted variants
         let (b, what) = corrupt_pub(rng, &fc);
         out.push((format!("stream any - {} {}", opss, hex(&b)), format!("clean=0|corrupt={}", what)));
@@ -211,6 +215,34 @@ pub fn gen_streamfault(rng: &mut Rng, n: usize, thorough: bool) -> Vec<Case> {
     out
 }
 
+/// faults during the open of a file that uses the PN_XNUM escape with more than 0xffff segments (the count lives in
+/// shdr[0], read by its own I/O calls): a fault at every single I/O call of `open_stream`
+pub fn gen_bigfault(rng: &mut Rng, _n: usize, _thorough: bool) -> Vec<Case> {
+    use crate::elfbuild::*;
+    let mut out = vec![];
+    let le = rng.below(2) == 0;
+    let mut o = Obj::new(false, le);
+    o.tables_first = false;
+    for _ in 1..3 { o.add_sec(Sec::new(b".p", SHT_PROGBITS, vec![1, 2, 3, 4])); }
+    let nseg = 0x10003usize;
+    for i in 0..nseg {
+        o.segs.push(Seg { p_type: if i == nseg - 1 { PT_NOTE } else { PT_LOAD }, flags: i as u32, sec: None, offset: 0, filesz: 0, memsz: 0, vaddr: 0, paddr: 0, align: 4 });
+    }
+    let name_off = o.finish_names();
+    let built = o.build(&name_off);
+    let h = hex(&built.bytes);
+    let clean = crate::stream::run_stream("any", "-", "-", &built.bytes);
+    out.push((format!("stream any - P0,P65538 {}", h), "clean=1|big".into()));
+    for k in 0..clean.io_calls {
+        for kind in ["f", "e"] {
+            let mut s: Vec<&str> = vec!["o"; k];
+            s.push(kind);
+            out.push((format!("stream any {} P0,P65538 {}", s.join(","), h), "faults|transient|big".into()));
+        }
+    }
+    out
+}
+
 /// stream open on the extended-numbering files (stream side of C05)
 pub fn gen_bigstream(rng: &mut Rng, n: usize, thorough: bool) -> Vec<Case> {
     crate::gen3::gen_bigfile(rng, n, thorough)
@@ -220,4 +252,46 @@ pub fn gen_bigstream(rng: &mut Rng, n: usize, thorough: bool) -> Vec<Case> {
             (format!("stream any - T,S0,S1,P0 {}", t[3]), ann)
         })
         .collect()
+}
+
+/// extended-numbering escapes with absurd values in shdr[0], through the slice parser (and the stream parser):
+/// `e_shnum = 0` with `shdr[0].sh_size` up to 2^64-1 (products and sums with e_shoff that wrap), `e_phnum = 0xffff`
+/// with every 32-bit `sh_info`, `e_shstrndx = 0xffff` with every 32-bit `sh_link` — opening and the first queries
+pub fn gen_filehdr(rng: &mut Rng, n: usize, _thorough: bool) -> Vec<Case> {
+    let mut out = vec![];
+    for k in 0..n.max(1) * 2 {
+        let mut fc = rand_object(rng, true);
+        fc.obj.no_shdrs = false;
+        fc.obj.ext_phnum = false;
+        fc.obj.ext_shnum = false;
+        if k % 2 == 0 { fc.obj.tables_first = true; }
+        let name_off = fc.built.name_off.clone();
+        fc.built = fc.obj.build(&name_off);
+        let le = fc.obj.le;
+        let field = |n: &str| fc.built.fields.iter().find(|f| f.name == n).cloned();
+        let entsz: u64 = if fc.obj.is64 { 64 } else { 40 };
+        let shoff = fc.built.shoff;
+        let mut sizes: Vec<u64> = vec![0, 1, 2, 1 << 31, (1 << 32) - 1, 1 << 32, 1 << 57, (1 << 58) - 1, 1 << 58, (1 << 58) + 1,
+                                       1 << 59, 1 << 62, 1 << 63, u64::MAX, u64::MAX - 1, u64::MAX / entsz, u64::MAX / entsz + 1];
+        let wrap = (u64::MAX - shoff) / entsz;
+        sizes.extend([wrap, wrap + 1, wrap.saturating_sub(1)]);
+        let combos: [(&str, u64, &str, Vec<u64>); 3] = [
+            ("e_shnum", 0, "s0.sh_size", sizes),
+            ("e_phnum", 0xffff, "s0.sh_info", vec![0, 1, 2, 0xffff, 0x10000, 1 << 31, (1 << 32) - 1, (1 << 32) - 2]),
+            ("e_shstrndx", 0xffff, "s0.sh_link", vec![0, 1, 2, 0xffff, 0x10000, 1 << 31, (1 << 32) - 1]),
+        ];
+        for (a, va, b, vbs) in combos.iter() {
+            let (fa, fb) = match (field(a), field(b)) { (Some(x), Some(y)) => (x, y), _ => continue };
+            for vb in vbs {
+                let mask = if fb.width == 8 { u64::MAX } else { (1u64 << (8 * fb.width)) - 1 };
+                let mut bytes = fc.built.bytes.clone();
+                crate::enc::put_at(&mut bytes, fa.off, le, fa.width, *va);
+                crate::enc::put_at(&mut bytes, fb.off, le, fb.width, *vb & mask);
+                let h = hex(&bytes);
+                out.push((format!("file any T,C,S0,S1,P0,d {}", h), format!("clean=0|corrupt={}={}+{}={}", a, va, b, vb & mask)));
+                out.push((format!("stream any - T,S0,P0,d {}", h), format!("clean=0|corrupt={}={}+{}={}", a, va, b, vb & mask)));
+            }
+        }
+    }
+    out
 }
